@@ -99,6 +99,27 @@ fn matches_state(rec: &BTreeMap<String, (Vec<u64>, Vec<u64>)>, st: &BTreeMap<Str
     Ok(())
 }
 
+/// content comparison that ignores which keyspaces exist (a keyspace missing from the model
+/// state must be empty): used with manual journal persist, where keyspace creation (not
+/// journaled, durable at once) and journaled data are not ordered with each other
+fn matches_content(rec: &BTreeMap<String, (Vec<u64>, Vec<u64>)>, st: &BTreeMap<String, (Vec<u64>, bool)>) -> Result<(), String> {
+    for (n, (point, scan)) in rec {
+        match st.get(n) {
+            Some((r, tainted)) => {
+                if !*tainted && (point != r || scan != r) {
+                    return Err(format!("{n}: get {point:?} iter {scan:?} vs {r:?}"));
+                }
+            }
+            None => {
+                if point.iter().any(|v| *v != 0) || scan.iter().any(|v| *v != 0) {
+                    return Err(format!("{n}: not empty {point:?}"));
+                }
+            }
+        }
+    }
+    Ok(())
+}
+
 pub fn run_crash(args: &CrashArgs) -> Outcome {
     let mut out = Outcome::default();
     let root = crate::util::scratch_root();
@@ -251,10 +272,27 @@ pub fn run_crash(args: &CrashArgs) -> Outcome {
                         let before = st_at(si - 1);
                         let lo_manual = if args.manual_persist { sync_points_manual(&steps, si) } else { si - 1 };
                         let mut ok = Err(String::new());
-                        if si >= executed as i64 || reading {
+                        if args.manual_persist {
+                            // names: before or after the step in flight; content: one step since
+                            // the last persist, the same for every keyspace
+                            let names_ok = |m: &BTreeMap<String, (Vec<u64>, bool)>| rec.keys().collect::<Vec<_>>() == m.keys().collect::<Vec<_>>();
+                            let hi = si.min(executed as i64 - 1);
+                            if !(names_ok(st_at(hi)) || names_ok(st_at(si - 1))) {
+                                ok = Err(format!("keyspaces {:?}", rec.keys().collect::<Vec<_>>()));
+                            } else {
+                                for j in lo_manual.min(si - 1)..=hi {
+                                    let r = matches_content(rec, st_at(j));
+                                    if r.is_ok() {
+                                        ok = r;
+                                        break;
+                                    }
+                                    ok = r;
+                                }
+                            }
+                        } else if si >= executed as i64 || reading {
                             ok = matches_state(rec, after);
                         } else {
-                            for j in (lo_manual.min(si - 1))..=si {
+                            for j in (si - 1)..=si {
                                 let r = matches_state(rec, st_at(j));
                                 if r.is_ok() {
                                     ok = r;
